@@ -251,7 +251,13 @@ func (fr *Frame) step(in ssa.Instruction) {
 		fr.regs[x] = fr.call(x)
 	case *ssa.TypeAssert:
 		v := fr.get(x.X)
-		it.event("unmodelled", fr.fn, x.Pos(), "type assertion on %s", show(v))
+		dyn := v
+		if ifc, ok := dyn.(Iface); ok {
+			dyn = ifc.Dyn
+		}
+		if _, isHash := dyn.(HashRef); !isHash {
+			it.event("unmodelled", fr.fn, x.Pos(), "type assertion on %s", show(v))
+		}
 		if x.CommaOk {
 			fr.regs[x] = Tuple{v, Top{Why: "type assertion result"}}
 		} else {
@@ -524,7 +530,6 @@ func (it *Interp) concretiseInt(s AbsSlice) (SliceV, bool) {
 	}
 	return SliceV{Arr: o.Root, Lo: 0, Len: TInt(int64(n)), Cap: n}, true
 }
-
 
 // applyBind re-expresses a value over the current (narrowed / bound) symbols of the path.
 func (it *Interp) applyBind(v Value) Value {
